@@ -21,6 +21,12 @@ import operator
 from copy import copy as _shallowcopy
 
 
+def _flagged(e, sf):
+    """e with sign flag sf: e itself when it already carries it, a flagged copy
+    otherwise (e may be an object held by an environment, a map or a composite)"""
+    return e.signed() if sf else e.unsigned()
+
+
 # decorators:
 # ------------
 
@@ -964,8 +970,7 @@ class reg(exp):
             # do not alias the constant stored in env: its sf flag is rewritten
             # by operators and by every other occurrence of this register
             r = cst(r.v, r.size)
-        r.sf = self.sf
-        return r
+        return _flagged(r, self.sf)
 
     def addr(self, env):
         return self
@@ -1379,8 +1384,7 @@ class mem(exp):
             else:
                 m[loc] = env(v)
         res = m[mem(a, self.size, endian=self.endian)]
-        res.sf = self.sf
-        return res
+        return _flagged(res, self.sf)
 
     def simplify(self, **kargs):
         self.a.simplify(**kargs)
@@ -1585,8 +1589,7 @@ class slc(exp):
     def eval(self, env):
         n = self.x.eval(env)
         res = n[self.pos : self.pos + self.size]
-        res.sf = self.sf
-        return res
+        return _flagged(res, self.sf)
 
     # slc of mem objects are simplified by adjusting the disp offset of
     # the sliced mem object.
@@ -1596,8 +1599,7 @@ class slc(exp):
             return top(self.size)
         if self.x._is_cmp or self.x._is_cst:
             res = self.x[self.pos : self.pos + self.size]
-            res.sf = self.sf
-            return res
+            return _flagged(res, self.sf)
         if self.x._is_mem and self.size % 8 == 0:
             off, rst = divmod(self.pos, 8)
             if rst == 0:
@@ -1787,8 +1789,7 @@ class op(exp):
         l = self.l.eval(env)
         r = self.r.eval(env)
         res = self.op(l, r)
-        res.sf = self.sf
-        return res
+        return _flagged(res, self.sf)
 
     ##
 
@@ -1873,8 +1874,7 @@ class uop(exp):
         # single-operand :
         r = self.r.eval(env)
         res = self.op(r)
-        res.sf = self.sf
-        return res
+        return _flagged(res, self.sf)
 
     @property
     def l(self):
